@@ -208,6 +208,8 @@ def check_bound(ctx, case):
         ("setter", lambda x: getattr(x, "set_" + kind)(v)),
         ("set_note-keyword", lambda x: x.set_note("D", 5, **{kind: v})),
         ("set_note-dynamics", lambda x: x.set_note("D", 5, {kind: v})),
+        ("set_note-text-keyword", lambda x: x.set_note("D-5", **{kind: v})),  # 'Name-octave' text together with a dynamics value
+        ("set_note-text-dynamics", lambda x: x.set_note("D-5", 4, {kind: v})),
     ]
     for how, f in makers:
         x = Note("E", 3, velocity=11, channel=3)
@@ -219,7 +221,8 @@ def check_bound(ctx, case):
             ctx.raises("bounds/%s" % kind, (ValueError,), f, x)
             ctx.check((x.name, x.octave, x.velocity, x.channel) == before, "bounds/%s/changed-after-rejection" % kind,
                       lambda: "%s %s=%r: %r -> %r" % (how, kind, v, before, (x.name, x.octave, x.velocity, x.channel)))
-    ctors = [("constructor-keyword", lambda: Note("D", 5, **{kind: v})), ("constructor-dynamics", lambda: Note("D", 5, {kind: v}))]
+    ctors = [("constructor-keyword", lambda: Note("D", 5, **{kind: v})), ("constructor-dynamics", lambda: Note("D", 5, {kind: v})),
+             ("constructor-text-keyword", lambda: Note("D-5", **{kind: v})), ("constructor-text-dynamics", lambda: Note("D-5", 4, {kind: v}))]
     for how, f in ctors:
         if inside:
             x = ctx.ok("bounds/%s/in-range" % kind, f)
